@@ -18,6 +18,7 @@ import (
 
 type v1env struct {
 	cs   consensus.State
+	pre  *v1env // the same ledger under a network whose tax hardfork lies in the future (nil in pre itself)
 	sk   types.PrivateKey
 	uc   types.UnlockConditions
 	addr types.Address
@@ -25,7 +26,14 @@ type v1env struct {
 }
 
 func newV1Env() *v1env {
+	env := newV1EnvNet(testNetwork())
 	n := testNetwork()
+	n.HardforkTax.Height = 1 << 40
+	env.pre = newV1EnvNet(n)
+	return env
+}
+
+func newV1EnvNet(n *consensus.Network) *v1env {
 	sk := renterKey
 	uc := types.StandardUnlockConditions(sk.PublicKey())
 	env := &v1env{sk: sk, uc: uc, addr: uc.UnlockHash()}
@@ -97,6 +105,17 @@ func taxTarget(r *rand.Rand) *big.Int {
 	}
 }
 
+// share draws the host's part of a target: anything, all or nothing.
+func share(r *rand.Rand, t *big.Int) *big.Int {
+	switch r.Intn(6) {
+	case 0:
+		return new(big.Int).Set(t)
+	case 1:
+		return new(big.Int)
+	}
+	return new(big.Int).Rand(r, new(big.Int).Add(t, one))
+}
+
 func split3(r *rand.Rand, t *big.Int) (a, b, c *big.Int) {
 	x, y := new(big.Int).Rand(r, new(big.Int).Add(t, one)), new(big.Int).Rand(r, new(big.Int).Add(t, one))
 	if x.Cmp(y) > 0 {
@@ -111,12 +130,39 @@ func split3(r *rand.Rand, t *big.Int) (a, b, c *big.Int) {
 	return x, new(big.Int).Sub(y, x), new(big.Int).Sub(t, y)
 }
 
-func (env *v1env) line(r *rand.Rand, kind int) ev {
+// era adds what the real code says about the same contract before the tax hardfork.
+func (env *v1env) era(e ev, fc types.FileContract, built bool) ev {
+	var tax types.Currency
+	acc := false
+	if built {
+		if pnc, _ := vlib.Recover(func() { tax = env.pre.cs.FileContractTax(fc) }); !pnc {
+			acc, _ = env.pre.submitV1(fc)
+		}
+	}
+	e["taxPre"], e["accPre"] = L(tax), acc
+	return e
+}
+
+// line executes one independent line. tp == nil: parameters are drawn at random; otherwise the sum of
+// the valid outputs (the target of the tax inversion) is the one chosen by TaxInversion.tla and the
+// other parameters are drawn within it.
+func (env *v1env) line(r *rand.Rand, kind int, tp *taxPick) ev {
 	cs := env.cs
 	host := rhp2.HostSettings{Address: types.Address{2}, WindowSize: uint64(1 + r.Intn(300))}
+	model := func(e ev, target *big.Int) ev {
+		e["target"] = vlib.Limbs(target)
+		e["t0"], e["k"], e["cls"] = -1, []int{}, ""
+		if tp != nil {
+			e["target"], e["t0"], e["k"], e["cls"] = vlib.Limbs(tp.target()), tp.T0, vlib.Limbs(tp.k()), tp.Cls
+		}
+		return e
+	}
 	switch kind {
 	case 0: // rhp/v2 PrepareContractFormation
 		target := taxTarget(r)
+		if tp != nil {
+			target = tp.target()
+		}
 		rp, cp, coll := split3(r, target)
 		host.ContractPrice = cur(cp)
 		end := uint64(10 + r.Intn(100000))
@@ -128,13 +174,13 @@ func (env *v1env) line(r *rand.Rand, kind int) ev {
 			tax = cs.FileContractTax(fc)
 			cost = rhp2.ContractFormationCost(cs, fc, host.ContractPrice)
 		})
-		e := ev{"ev": "v1form", "panic": pnc, "target": vlib.Limbs(target), "rp": vlib.Limbs(rp), "cp": vlib.Limbs(cp), "coll": vlib.Limbs(coll),
+		e := ev{"ev": "v1form", "panic": pnc, "rp": vlib.Limbs(rp), "cp": vlib.Limbs(cp), "coll": vlib.Limbs(coll),
 			"payout": L(fc.Payout), "valid": outsJSON(fc.ValidProofOutputs), "missed": outsJSON(fc.MissedProofOutputs), "tax": L(tax), "cost": L(cost),
 			"ws": int(fc.WindowStart), "we": int(fc.WindowEnd), "end": int(end), "window": int(host.WindowSize), "accepted": false}
 		if !pnc {
 			e["accepted"], _ = env.submitV1(fc)
 		}
-		return e
+		return env.era(model(e, target), fc, !pnc)
 	case 1, 2: // PrepareContractRenewal of rhp/v2 and rhp/v3
 		fs := uint64(r.Intn(1<<20)) * uint64(1+r.Intn(1<<12))
 		oldStart := uint64(5 + r.Intn(1000))
@@ -153,6 +199,20 @@ func (env *v1env) line(r *rand.Rand, kind int) ev {
 			if end+host.WindowSize > oldFC.WindowEnd {
 				ext = end + host.WindowSize - oldFC.WindowEnd
 			}
+			if tp != nil { // the host's share of the target: contract price, base price + base collateral, new collateral
+				T := tp.target()
+				cpB, baseB, ncB := split3(r, share(r, T))
+				bb := new(big.Int).Mul(new(big.Int).SetUint64(fs), new(big.Int).SetUint64(ext))
+				if bb.Sign() > 0 {
+					spB, pcB, _ := split3(r, new(big.Int).Div(baseB, bb))
+					sp, pc = cur(spB), cur(pcB)
+				}
+				cp, newColl = cur(cpB), cur(ncB)
+				host.StoragePrice, host.Collateral, host.ContractPrice = sp, pc, cp
+				hostValid := new(big.Int).Add(sp.Big(), pc.Big())
+				hostValid.Mul(hostValid, bb).Add(hostValid, cpB).Add(hostValid, ncB)
+				rp = cur(new(big.Int).Sub(T, hostValid))
+			}
 			var fc types.FileContract
 			var basePrice, tax, cost, hv, hm, vm, bp2 types.Currency
 			fee := cur(mag(r, 0, 60))
@@ -169,7 +229,7 @@ func (env *v1env) line(r *rand.Rand, kind int) ev {
 			if !pnc {
 				e["accepted"], _ = env.submitV1(fc)
 			}
-			return e
+			return env.era(model(e, new(big.Int).Add(rp.Big(), hv.Big())), fc, !pnc)
 		}
 		pt := rhp3.HostPriceTable{ContractPrice: cp, WriteStoreCost: sp, CollateralCost: pc, RenewContractCost: cur(price(r, 60)),
 			WindowSize: host.WindowSize, HostBlockHeight: uint64(r.Intn(int(end) + 1))}
@@ -195,6 +255,46 @@ func (env *v1env) line(r *rand.Rand, kind int) ev {
 		if r.Intn(2) == 0 {
 			minNew = types.ZeroCurrency
 		}
+		if tp != nil { // the host's share of the target: contract price, renewal cost, base price + base collateral, new collateral
+			T := tp.target()
+			cpB, x, collB := split3(r, share(r, T))
+			rccB, baseB, rest := split3(r, x)
+			cpB.Add(cpB, rest)
+			bb := new(big.Int).Mul(new(big.Int).SetUint64(fs), new(big.Int).SetUint64(ext))
+			if bb.Sign() > 0 {
+				spB, pcB, _ := split3(r, new(big.Int).Div(baseB, bb))
+				sp, pc = cur(spB), cur(pcB)
+			}
+			pd := new(big.Int).Mul(pc.Big(), new(big.Int).SetUint64(dur))
+			if pd.Sign() > 0 && r.Intn(2) == 0 { // expected storage whose collateral fits
+				if lim := new(big.Int).Div(collB, pd); lim.IsUint64() && lim.Uint64() < expStorage {
+					expStorage = lim.Uint64()
+				}
+			}
+			cp, minNew = cur(cpB), types.ZeroCurrency
+			pt.ContractPrice, pt.WriteStoreCost, pt.CollateralCost, pt.RenewContractCost = cp, sp, pc, cur(rccB)
+			rawBase := new(big.Int).Mul(pc.Big(), bb)
+			rawNew := new(big.Int).Mul(pd, new(big.Int).SetUint64(expStorage))
+			capNew := collB
+			if rawNew.Cmp(capNew) < 0 {
+				capNew = rawNew
+			}
+			baseColl, newColl := rawBase, new(big.Int)
+			switch k := r.Intn(3); {
+			case k == 0: // the limit cuts into the base collateral
+				baseColl = new(big.Int).Rand(r, new(big.Int).Add(rawBase, one))
+				pt.MaxCollateral = cur(baseColl)
+			case k == 1 || rawNew.Cmp(collB) > 0: // the limit cuts into the new collateral
+				newColl = new(big.Int).Rand(r, new(big.Int).Add(capNew, one))
+				pt.MaxCollateral = cur(new(big.Int).Add(rawBase, newColl))
+			default: // no cut
+				newColl = rawNew
+				pt.MaxCollateral = cur(new(big.Int).Add(new(big.Int).Add(rawBase, rawNew), mag(r, 0, 60)))
+			}
+			hostValid := new(big.Int).Mul(sp.Big(), bb)
+			hostValid.Add(hostValid, cpB).Add(hostValid, rccB).Add(hostValid, baseColl).Add(hostValid, newColl)
+			rp = cur(new(big.Int).Sub(T, hostValid))
+		}
 		var fc types.FileContract
 		var basePrice, tax, cost, bp, bc, nc types.Currency
 		var err error
@@ -215,7 +315,7 @@ func (env *v1env) line(r *rand.Rand, kind int) ev {
 		if !pnc && err == nil {
 			e["accepted"], _ = env.submitV1(fc)
 		}
-		return e
+		return env.era(model(e, sumOut(fc.ValidProofOutputs)), fc, !pnc && err == nil)
 	case 4: // rhp/v4 MinRenterAllowance / MaxHostCollateral (used by the request validation)
 		hp := rhp4.HostPrices{StoragePrice: cur(price(r, 27)), Collateral: cur(price(r, 27))}
 		coll, allow := cur(mag(r, 0, 100)), cur(mag(r, 0, 100))
